@@ -19,6 +19,9 @@
 (*   wf, wat  a disturbed write call (the consumer stays): "none" | "short" the wat-th write call   *)
 (*            takes only a part of its bytes | "shortall" so does every later one | "eintr" it fails  *)
 (*            with EINTR; what the consumer gets and how delta exits must not depend on it           *)
+(* (The harness runs the scenarios in which delta starts a program and the consumer stays a second time with a program that  *)
+(* talks on stderr - a differ with tracing switched on, a wrapped command that writes 4 000 lines there first -: the          *)
+(* expectations are the same.)                                                                                               *)
 (* The operators below say what must be observed; they are used both to enumerate the fault  *)
 (* space (MC_Pager) and to judge recorded runs (Trace_Pager).                                *)
 EXTENDS Naturals, Sequences, FiniteSets
